@@ -49,7 +49,7 @@ def _unit_worker(job):
                     "time": round(ob.time, 4),
                     "backend": ob.backend,
                     "witness": ob.witness,
-                    "info": {k: (v if isinstance(v, (int, str, type(None))) else str(v)) for k, v in (ob.info or {}).items()},
+                    "info": dict({k: (v if isinstance(v, (int, str, type(None))) else str(v)) for k, v in (ob.info or {}).items()}, **({"solver_info": ob.solver_info} if getattr(ob, "solver_info", None) else {})),
                     "size": len(ob.pc),
                 }
             )
@@ -177,7 +177,7 @@ def native_replay(prop, modname, key, shape, ob, replay_dir):
         "contract": key,
         "shape": shape,
         "witness": ob["witness"],
-        "solver": {"status": ob["status"], "backend": ob["backend"], "time": ob["time"]},
+        "solver": {"status": ob["status"], "backend": ob["backend"], "time": ob["time"], "info": (ob.get("info") or {}).get("solver_info")},
         "repo": REPO_ROOT,
         "replay_cmd": "./vf replay %s" % path,
     }
